@@ -441,6 +441,10 @@ pub fn run_check(prop: &dyn Property, tier: Tier, seed: u64) -> i32 {
                     if quota == 0 || stop.load(Ordering::SeqCst) {
                         continue;
                     }
+                    // development aid: XV_FAMILY=name runs one family only
+                    if std::env::var("XV_FAMILY").map_or(false, |f| f != fam.name) {
+                        continue;
+                    }
                     let shard_seed = mix(mix(seed, fnv(prop.id().as_bytes())), mix(fnv(fam.name.as_bytes()), shard));
                     let mut runner = TestRunner::new(Config {
                         cases: quota as u32,
